@@ -94,6 +94,33 @@ pub fn li_change(v: &[u8], max: bool) -> String {
     let ch = if max { li.maximize() } else { li.minimize() };
     let after: Vec<String> = li.variants().map(|v| v.to_string()).collect();
     if before != after { return "LAWFAIL variants touched".into(); }
+    // the algebraic laws of C07 / C08 on the METHOD form (the function form has them in `maximize` / `minimize` above)
+    let orig = match LanguageIdentifier::from_bytes(v) { Ok(x) => x, Err(_) => return "BADARG".into() };
+    if !ch && li != orig { return format!("LAWFAIL returned false but changed the identifier: {}", li); }
+    // (a true result with an unchanged identifier is not excluded by C07 / C08: minimize answers true for an
+    // unknown language with a region, for instance; idempotence is about the VALUE)
+    let mut again = li.clone();
+    let _ = if max { again.maximize() } else { again.minimize() };
+    if again != li { return format!("LAWFAIL not idempotent: {} then {}", li, again); }
+    if max {
+        if ch {
+            if !orig.language.is_empty() && li.language != orig.language { return format!("LAWFAIL language not kept: {}", li); }
+            if orig.script.is_some() && li.script != orig.script { return format!("LAWFAIL script not kept: {}", li); }
+            if orig.region.is_some() && li.region != orig.region { return format!("LAWFAIL region not kept: {}", li); }
+            if li.language.is_empty() || li.script.is_none() || li.region.is_none() { return format!("LAWFAIL not all three present: {}", li); }
+        }
+    } else {
+        let (mut mo, mut ma) = (orig.clone(), li.clone());
+        mo.maximize(); ma.maximize();
+        if mo != ma { return format!("LAWFAIL meaning changed: {} maximizes to {}, the original to {}", li, ma, mo); }
+        if li.language != mo.language || (li.script.is_some() && li.script != mo.script) || (li.region.is_some() && li.region != mo.region) {
+            return format!("LAWFAIL uses a subtag the maximized original lacks: {}", li);
+        }
+        let cnt = |x: &LanguageIdentifier| x.script.is_some() as u32 + x.region.is_some() as u32;
+        if cnt(&li) > cnt(&orig) { return format!("LAWFAIL more script/region subtags than the original: {}", li); }
+        let mut mm = mo.clone(); mm.minimize();
+        if mm != li { return format!("LAWFAIL minimize(maximize(x)) = {} differs from minimize(x) = {}", mm, li); }
+    }
     format!("{} {}", ch, li)
 }
 pub fn direction(v: &[u8]) -> String {
@@ -212,6 +239,45 @@ pub fn universe() -> (Vec<String>, Vec<String>, Vec<String>, Vec<(String, String
      v(&["Latn", "Arab", "Cyrl", "Hebr", "Mong", "Adlm", "Hans", "Zzzz", "Xxxx", "Thaa", "Nkoo"]),
      v(&["US", "IR", "AZ", "PK", "IN", "CN", "MN", "ZZ", "001", "999"]), vec![])
 }
+
+/// For every language: every script and every region that any table row relates to it (as part of a key or of a value),
+/// combined with each other - the full triples on which a language-script, a language-region and the language-only
+/// entry compete (zh-Hans-TW, sr-Cyrl-ME, pa-Guru-PK: default script of the language, region with an entry of its own).
+#[cfg(all(feature = "likely", unic_locale_verif))]
+pub fn lang_products() -> Vec<(String, String, String)> {
+    use unic_langid_impl::likelysubtags::verif_tables as t;
+    use std::collections::{BTreeMap, BTreeSet};
+    let l8 = |x: u64| unsafe { Language::from_raw_unchecked(x) }.as_str().to_string();
+    let s4 = |x: u32| unsafe { Script::from_raw_unchecked(x) }.as_str().to_string();
+    let r4 = |x: u32| unsafe { Region::from_raw_unchecked(x) }.as_str().to_string();
+    let mut m: BTreeMap<String, (BTreeSet<String>, BTreeSet<String>)> = BTreeMap::new();
+    let mut add = |l: Option<String>, s: Option<String>, r: Option<String>, v: &(Option<u64>, Option<u32>, Option<u32>)| {
+        let vl = v.0.map(l8);
+        for lang in [l.clone(), vl].iter().flatten() {
+            let e = m.entry(lang.clone()).or_default();
+            for sc in [s.clone(), v.1.map(s4)].iter().flatten() { e.0.insert(sc.clone()); }
+            for rg in [r.clone(), v.2.map(r4)].iter().flatten() { e.1.insert(rg.clone()); }
+        }
+    };
+    for (k, v) in t::LANG_ONLY.iter() { add(Some(l8(*k)), None, None, v); }
+    for (a, b, v) in t::LANG_REGION.iter() { add(Some(l8(*a)), None, Some(r4(*b)), v); }
+    for (a, b, v) in t::LANG_SCRIPT.iter() { add(Some(l8(*a)), Some(s4(*b)), None, v); }
+    for (a, b, v) in t::SCRIPT_REGION.iter() { add(None, Some(s4(*a)), Some(r4(*b)), v); }
+    for (k, v) in t::SCRIPT_ONLY.iter() { add(None, Some(s4(*k)), None, v); }
+    for (k, v) in t::REGION_ONLY.iter() { add(None, None, Some(r4(*k)), v); }
+    let mut res = vec![];
+    for (l, (ss, rs)) in m.iter() {
+        if ss.len() * rs.len() <= 1 { continue; }   // the single combination is the language-only answer itself
+        for s in ss.iter() { for r in rs.iter() {
+            res.push((l.clone(), s.clone(), r.clone()));
+            if l != "und" { res.push((String::new(), s.clone(), r.clone())); }
+        } }
+    }
+    res.sort(); res.dedup();
+    res
+}
+#[cfg(not(all(feature = "likely", unic_locale_verif)))]
+pub fn lang_products() -> Vec<(String, String, String)> { vec![] }
 
 fn locale_dirs() -> Vec<String> {
     let mut v = vec![];
@@ -357,6 +423,12 @@ pub fn run(out: &mut Out, tier: &str, rng: &mut Rng) {
                 out.emit("par_maximize", &[a.as_bytes(), b.as_bytes(), c.as_bytes()], exp[i].0.clone());
                 out.emit("par_minimize", &[a.as_bytes(), b.as_bytes(), c.as_bytes()], exp[i].1.clone());
             }
+        }
+        out.comment("per language: every related script x every related region (competing table entries)");
+        for (a, b, c) in lang_products() {
+            let (a, b, c) = (a.as_bytes(), b.as_bytes(), c.as_bytes());
+            out.case("maximize", &[a, b, c], || maximize(a, b, c));
+            out.case("minimize", &[a, b, c], || minimize(a, b, c));
         }
         out.comment("registered codes outside the CLDR likely-subtags data, each combined with known and unknown neighbours");
         for sc in EXTRA_SCRIPTS.iter() { for l in ["", "ur", "ar", "en", "zh", "sr", "xx"] { for r in ["", "PK", "US", "XX"] {
